@@ -578,6 +578,27 @@ CliRecClause(ev) ==
   ELSE IF ~ev.parsed THEN "printed-point-unreadable"
   ELSE "ok"
 
+\* C07: truncated forms (parser with allow_truncated): the fields spelled are reported as the truncated properties,
+\* the zone is unknown unless given, dump_as_parsed reproduces the input
+ParseTruncClause(ev) ==
+  LET gt == ev.gt  e == TruncFields(gt)  q == ev.q
+      lastfu == IF Len(gt.ds) = 0 THEN 0 ELSE Micro6(gt.ds)
+      fu == IF e.ss >= 0 THEN q.ssus ELSE IF e.mi >= 0 THEN q.mius ELSE q.hhus
+      gd == [gt EXCEPT !.ds = IF Len(gt.ds) = 0 THEN gt.ds ELSE StripZeros(gt.ds)]
+  IN
+  IF ev.text # TruncText(gt) THEN "harness-render-mismatch"
+  ELSE IF ~ev.ok THEN "refused-documented-truncated-form-" \o ev.cls
+  ELSE IF ~ev.trunc THEN "not-reported-as-truncated"
+  ELSE IF <<q.yc, q.yd, q.mo, q.dom, q.doy, q.woy, q.dow>> # <<e.yc, e.yd, e.mo, e.dom, e.doy, e.woy, e.dow>> THEN "truncated-date-properties"
+  ELSE IF <<q.hh, q.mi, q.ss>> # <<e.hh, e.mi, e.ss>> THEN "truncated-time-properties"
+  ELSE IF ~(fu - lastfu \in 0..1) THEN "decimal-fraction"
+  ELSE IF gt.tform # "none" /\ gt.zform # "none" /\ ~(~q.zu /\ q.zh = gt.zh /\ q.zm = gt.zm) THEN "offset"
+  \* no zone in the text: unknown when the parser defaults to unknown, the assumed offset when it is told one
+  ELSE IF (gt.tform = "none" \/ gt.zform = "none") /\ ev.pz = "unknown" /\ ~q.zu THEN "zone-not-unknown"
+  ELSE IF (gt.tform = "none" \/ gt.zform = "none") /\ ev.pz = "assumed" /\ ~(~q.zu /\ q.zh = 5 /\ q.zm = 30) THEN "assumed-offset"
+  ELSE IF Len(gt.ds) <= 6 /\ ev.dumped # TruncText(gd) THEN "dump-as-parsed-does-not-reproduce-input"
+  ELSE "ok"
+
 \* ---------------------------------------------------------------------- the step relation
 Clause(ev) ==
   CASE ev.op = "Begin"    -> "ok"
@@ -623,6 +644,7 @@ Clause(ev) ==
     [] ev.op = "CliDiff"  -> CliDiffClause(ev)
     [] ev.op = "CliBad"   -> CliBadClause(ev)
     [] ev.op = "CliRec"   -> CliRecClause(ev)
+    [] ev.op = "ParseTrunc" -> ParseTruncClause(ev)
     [] ev.op = "Raised"   -> "raised-" \o ev.cls
     [] OTHER -> "unknown-event-kind"
 
